@@ -160,7 +160,7 @@ class BolfiPosterior:
         ndim = x.ndim
         x = x.reshape((-1, self.dim))
 
-        grad = np.zeros_like(x)
+        grad = np.zeros_like(x, dtype=float)
 
         logi = self._within_bounds(x)
         x = x[logi, :]
